@@ -68,6 +68,8 @@ func engineFor(prop string) Engine {
 	switch prop {
 	case "C01", "C02", "C03", "C04", "C11", "C19", "ALL":
 		return e1Engine{}
+	case "C05", "C20", "C14", "C18":
+		return e3Engine{}
 	}
 	return nil
 }
@@ -143,7 +145,13 @@ func TestSim(t *testing.T) {
 			return
 		}
 		if res.Nontrivial {
-			shapes[res.Shape] = true
+			if len(res.ShapeSet) > 0 {
+				for _, x := range res.ShapeSet {
+					shapes[x] = true
+				}
+			} else {
+				shapes[res.Shape] = true
+			}
 		}
 		if len(out.Samples) < 2 {
 			out.Samples = append(out.Samples, plan)
